@@ -255,7 +255,7 @@ def own_kinds(shape):
 
 
 def shape_queries(shape, tier, roots, full=False, battery='L2', side_battery='L1', seqlen=2,
-                  other=None, side_other=None, own=None):
+                  other=None, side_other=None, own=None, seq_only=False):
     """-> list of query dicts {id, code, method, kw, deep, head} for one shape (no mode).
 
     Batteries: 'L1' complete; 'L2' + infer; 'B' = L2 and the method battery with deep result
@@ -263,6 +263,11 @@ def shape_queries(shape, tier, roots, full=False, battery='L2', side_battery='L1
     own kind, `other` for the other main root, `side_battery`/`side_other` for the roots reached
     through a list / a SimpleNamespace.  None = the root is skipped."""
     vals, stmts = shape_expressions(shape, full, seqlen)
+    if seq_only:        # only the step sequences of exactly `seqlen` steps
+        n = seqlen
+        vals = [v for v in vals if v[1] == 'seq'
+                and v[0].count('.') + v[0].count('[') + v[0].count('(') == n]
+        stmts = []
     out = []
     own = own_kinds(shape) if own is None else own
     if other is None:
@@ -677,7 +682,8 @@ def _work(task):
         roots = [r for r in SHAPE_ROOTS if r[0] in task['roots']]
         qs = shape_queries(shape, tier, roots, full=task['full'], battery=task['battery'],
                            side_battery=task['side'], seqlen=task.get('seqlen', 2),
-                           other=task['other'], side_other=task['side_other'])
+                           other=task['other'], side_other=task['side_other'],
+                           seq_only=task.get('seq_only', False))
         interesting = set(_shape_attrs(shape)) | {'leafattr', 'leafmeth'}
         plain_roots = [r for r in ('obj', 'C', 'box', 'hold') if r in task['plain_roots']]
         plain_len = task['plain_len']
@@ -745,8 +751,11 @@ def _levels(tier):
     fe = cat.VARIANTS[:2]
     levels = []
     maxlen = 3 if tier == 'quick' else 4
+    # findability only matters where user classes are involved: the pure builtin-container
+    # roots are explored in both variants in the thorough tier only
     cont = [{'family': 'cont', 'variant': v, 'tier': tier, 'roots': [r], 'maxlen': maxlen}
-            for v in fe for r in ['d2', 'l2', 't2', 'inst', 'dynst', 'sn']]
+            for v in fe for r in ['d2', 'l2', 't2', 'inst', 'dynst', 'sn']
+            if tier == 'thorough' or v == 'exec' or r in ('inst', 'dynst', 'sn')]
     levels.append(('builtin-subclasses x {file,exec}',
                    [{'family': 'sub', 'variant': v, 'tier': tier} for v in fe]))
     side = ['obj', 'C', 'box0', 'box1']
@@ -757,7 +766,7 @@ def _levels(tier):
         levels.append(('descriptor singles shadowed in the instance dict x {file,exec}',
                        _shape_tasks(tier, descr, fe, shadow=True, roots=['obj'],
                                     plain_roots=['obj'])))
-        levels.append(('containers(plain paths<=%d) x {file,exec}' % maxlen, cont))
+        levels.append(('containers(plain paths<=%d)' % maxlen, cont))
         levels.append(('singles x {dyn}: relevant expressions, own root',
                        _shape_tasks(tier, singles, ['dyn'], other='skip')))
         levels.append(('pairs, same placement x {exec}: relevant expressions, own root, complete',
@@ -769,18 +778,21 @@ def _levels(tier):
                        _shape_tasks(tier, singles, fe, full=True, battery='B',
                                     roots=allroots, side_everywhere=True,
                                     plain_roots=['obj', 'C', 'box', 'hold'], plain_len=2)))
-        levels.append(('containers(plain paths<=%d) x {file,exec}' % maxlen, cont))
+        levels.append(('containers(plain paths<=%d)' % maxlen, cont))
         levels.append(('singles x {dyn}: relevant expressions, battery on heads',
                        _shape_tasks(tier, singles, ['dyn'], battery='B')))
         levels.append(('singles shadowed in the instance dict x {file,exec}',
                        _shape_tasks(tier, singles, fe, shadow=True, battery='B', roots=side)))
         levels.append(('pairs, same placement x {file,exec}: relevant expressions',
-                       _shape_tasks(tier, pairs_same, fe, roots=side)))
+                       _shape_tasks(tier, pairs_same, fe, roots=side, plain_roots=['obj'])))
         levels.append(('pairs, same placement x {dyn}: own root, complete',
                        _shape_tasks(tier, pairs_same, ['dyn'], battery='L1', other='skip',
                                     plain_roots=['obj'])))
+        levels.append(('singles x {file,exec}: step sequences of length 3, own root, complete',
+                       _shape_tasks(tier, singles, fe, full=True, seqlen=3, seq_only=True,
+                                    battery='L1', other='skip', plain_roots=[])))
         levels.append(('pairs, mixed placement x {exec}: relevant expressions',
-                       _shape_tasks(tier, pairs_mixed, ['exec'], plain_roots=[])))
+                       _shape_tasks(tier, pairs_mixed, ['exec'], other='skip', plain_roots=[])))
     return levels
 
 
@@ -833,7 +845,8 @@ def run(ctx):
             samples.append({'level': name, 'id': _task_id(tasks[len(tasks) // 2])})
     for kind in JUDGED:
         if not agg['hits_unsafe'].get(kind) and not agg['hits_safe'].get(kind):
-            ctx.note('vacuity: counter kind %s never moved in any mode' % kind)
+            ctx.note('no route: counter kind %s never moved in either mode (jedi has no route '
+                     'to it on the explored space; the expressions stay in the catalogue)' % kind)
     ctx.coverage.update({
         'states': states, 'transitions': agg['queries'], 'evaluations': agg['queries'],
         'distinct_nontrivial': len(agg['classes']) + len(agg['by_method']),
